@@ -30,7 +30,7 @@ def obligations(tier):
                   bounds="30/120/400 parses in one fresh interpreter alternating two of four texts that share every tick but differ in tempo map / resolution, "
                          "each chart dropped at once (freed objects, recycled addresses): every parse identical to the first parse of its text"))
     for p in range(1):
-        obs.append(Ob(f"C17.route_twice.part{{p}}", "CH", "harness.h_chart", "route_twice", 900, {{"VF_NSEC": 1, "VF_NPARTS": 16, "VF_PART": p}},
+        obs.append(Ob(f"C17.route_twice.part{p}", "CH", "harness.h_chart", "route_twice", 900, {"VF_NSEC": 1, "VF_NPARTS": 16, "VF_PART": p},
                       funcs=("chartparse.chart.Chart.from_file",),
                       bounds="two parses in one process: a restricted parse (selection: the file's pair and/or an absent pair) of a file with one track section, then a parse of another "
                              "file with a different track section and any selection form: the second result is what it would be as a first parse (3 of 48 names per partition, 6 orders)"))
